@@ -1,11 +1,82 @@
-import PeptVerif.Lemmas.Spans
+import PeptVerif.Lemmas.SpansDigest
 /-!
 # C06 — digestion returns exactly the spans the rules define
 
-Property theorems only. `IsEnz`, `IsSemi`, `IsSpan` are the set specification of
-`Spec/Spans.lean`; the left-hand sides are the models of `spans.py`.
+Property theorems only. `IsEnz`, `IsSemi`, `IsSpan`, `NonSpecific` are the set specification of
+`Spec/Spans.lean`; the left-hand sides are the models of `/repo/src/peptacular/spans.py`
+(`Model/Spans.lean`). Every theorem is for ALL `n`, ALL site lists (unsorted, with duplicates), ALL
+`mc`, `lo`, `hi` (or `none`) — no size bound anywhere.
+
+Domain hypotheses that appear below, and why they are not removable (each is outside the domain the
+property quantifies over: sites come from a regex over a string of length `n`, `min_len ≥ 1`):
+
+* `hlo : 1 ≤ lo.getD 1` (non-specific and semi case). With `min_len = 0` the code returns empty spans
+  `(s,s,0)` (and, semi-specific, even twice), which the specification does not regard as spans.
+  See `lo_zero_gives_empty_spans`.
+* `hn : 0 ≤ n`, `hb : ∀ s ∈ sites, 0 ≤ s ∧ s ≤ n` (non-specific and semi case). The shortcut test
+  `len(set(sites)) == n+1` and the default `max_len = n` used for the parents of semi spans are only
+  meaningful for sites inside `[0,n]`. See `site_outside_loses_semi_spans`.
+
+The enzymatic case (`semi = false`) needs no hypothesis except that the shortcut is not taken.
 -/
 namespace Spans
+
+/-! ## 1. the three simple builders -/
+
+/-- `build_non_enzymatic_spans(span, lo, hi)`: all `(s,e,0)` with `start ≤ s < stop`, `e ≤ stop`, length
+at least `lo` (default 1), at most `hi` (default: no bound) and strictly less than the parent's length. -/
+theorem mem_buildNonEnzymatic (span : Span) (lo hi : Option Int) (x : Span) :
+    x ∈ buildNonEnzymatic span lo hi ↔
+      span.1 ≤ x.1 ∧ x.1 < span.2.1 ∧ x.2.1 ≤ span.2.1 ∧ x.2.2 = 0 ∧
+        lo.getD 1 ≤ x.2.1 - x.1 ∧ x.2.1 - x.1 ≤ hi.getD (span.2.1 - span.1 - 1) ∧
+        x.2.1 - x.1 < span.2.1 - span.1 := by
+  obtain ⟨s, e, v⟩ := x
+  rw [mem_buildNonEnzymatic']
+  simp only
+  constructor <;> (intro h; omega)
+
+theorem nodup_buildNonEnzymatic (span : Span) (lo hi : Option Int) : (buildNonEnzymatic span lo hi).Nodup :=
+  nodup_buildNonEnzymatic' span lo hi
+
+example : (1, 3, 0) ∈ buildNonEnzymatic (0, 4, 7) none (some 2) := by decide
+
+/-- `build_left_semi_spans(span, lo, hi)`: same start and value as the parent, end strictly before the
+parent's end (and not before the start), length in `[lo, hi]` (defaults 1 and the parent's length). -/
+theorem mem_buildLeftSemi (span : Span) (lo hi : Option Int) (x : Span) :
+    x ∈ buildLeftSemi span lo hi ↔
+      x.1 = span.1 ∧ x.2.2 = span.2.2 ∧ x.1 ≤ x.2.1 ∧ x.2.1 < span.2.1 ∧
+        lo.getD 1 ≤ x.2.1 - x.1 ∧ x.2.1 - x.1 ≤ hi.getD (span.2.1 - span.1) := by
+  obtain ⟨s, e, v⟩ := x
+  rw [mem_buildLeftSemi']
+  simp only
+  constructor
+  · rintro ⟨rfl, h⟩; exact ⟨rfl, by omega⟩
+  · rintro ⟨rfl, h⟩; exact ⟨rfl, by omega⟩
+
+theorem nodup_buildLeftSemi (span : Span) (lo hi : Option Int) : (buildLeftSemi span lo hi).Nodup :=
+  nodup_buildLeftSemi' span lo hi
+
+example : (2, 5, 1) ∈ buildLeftSemi (2, 9, 1) (some 2) (some 3) := by decide
+
+/-- `build_right_semi_spans(span, lo, hi)`: same end and value as the parent, start strictly after the
+parent's start (and not after the end), length in `[lo, hi]`. -/
+theorem mem_buildRightSemi (span : Span) (lo hi : Option Int) (x : Span) :
+    x ∈ buildRightSemi span lo hi ↔
+      x.2.1 = span.2.1 ∧ x.2.2 = span.2.2 ∧ span.1 < x.1 ∧ x.1 ≤ x.2.1 ∧
+        lo.getD 1 ≤ x.2.1 - x.1 ∧ x.2.1 - x.1 ≤ hi.getD (span.2.1 - span.1) := by
+  obtain ⟨s, e, v⟩ := x
+  rw [mem_buildRightSemi']
+  simp only
+  constructor
+  · rintro ⟨rfl, h⟩; exact ⟨rfl, by omega⟩
+  · rintro ⟨rfl, h⟩; exact ⟨rfl, by omega⟩
+
+theorem nodup_buildRightSemi (span : Span) (lo hi : Option Int) : (buildRightSemi span lo hi).Nodup :=
+  nodup_buildRightSemi' span lo hi
+
+example : (6, 9, 1) ∈ buildRightSemi (2, 9, 1) (some 2) (some 3) := by decide
+
+/-! ## 2. the enzymatic builder -/
 
 /-- C06, enzymatic builder: exactly the spans between cleavage points of `S ∪ {0,n}` with at most
 `mc` cleavage points strictly inside, within the inclusive length bounds; the value is that count.
@@ -23,5 +94,213 @@ theorem mem_buildEnzymatic (n : Int) (sites : List Int) (mc : Nat) (lo hi : Opti
 
 /-- non-vacuity: a concrete enzymatic span with one missed cleavage -/
 example : IsEnz 14 [5, 10] 2 (0, 10, 1) := by decide
+
+theorem nodup_buildEnzymatic (n : Int) (sites : List Int) (mc : Nat) (lo hi : Option Int) :
+    (buildEnzymatic n sites mc lo hi).Nodup :=
+  nodup_enzGo _ _ _ _ (ssorted_sortDedup _)
+
+/-! ## 3. `build_spans` -/
+
+/-- the shortcut test of `build_spans` (`len(sorted(set(sites))) == max_index + 1`) recognises exactly
+the non-specific rule, as long as every site lies in `[0,n]` -/
+theorem shortcut_iff_nonSpecific (n : Int) (sites : List Int) (hn : 0 ≤ n) (hb : ∀ s ∈ sites, 0 ≤ s ∧ s ≤ n) :
+    ((sortDedup sites).length : Int) = n + 1 ↔ NonSpecific n sites :=
+  length_sortDedup_iff n sites (by omega) hb
+
+example : NonSpecific 3 [2, 0, 3, 1, 2] ∧ ∀ s ∈ [2, 0, 3, 1, 2], (0:Int) ≤ s ∧ s ≤ 3 := by decide
+
+/-- C06, non-specific rule: when every position `0..n` is a site, the result is every proper sub-span
+within the bounds, with value 0 — whatever `mc` and `semi` are. -/
+theorem mem_buildSpans_nonspecific (n : Int) (sites : List Int) (mc : Nat) (lo hi : Option Int) (semi : Bool)
+    (hn : 0 ≤ n) (hb : ∀ s ∈ sites, 0 ≤ s ∧ s ≤ n) (hlo : 1 ≤ lo.getD 1) (hns : NonSpecific n sites)
+    (x : Span) :
+    x ∈ buildSpans n sites mc lo hi semi ↔ IsSpan n sites mc (lo.getD 1) (hi.getD n) semi x := by
+  have hlen := (shortcut_iff_nonSpecific n sites hn hb).mpr hns
+  obtain ⟨s, e, v⟩ := x
+  unfold buildSpans IsSpan
+  simp only [hlen, if_true, hns]
+  rw [mem_buildNonEnzymatic']
+  simp only [Option.getD_some]
+  constructor <;> (intro h; omega)
+
+example : IsSpan 3 [2, 0, 3, 1, 2] 0 1 3 true (1, 3, 0) := by decide
+
+/-- C06, enzymatic digestion (`semi = False`), shortcut not taken: no hypothesis on `n`, sites or bounds. -/
+theorem mem_buildSpans_enzymatic (n : Int) (sites : List Int) (mc : Nat) (lo hi : Option Int)
+    (hlen : ((sortDedup sites).length : Int) ≠ n + 1) (x : Span) :
+    x ∈ buildSpans n sites mc lo hi false ↔
+      IsEnz n sites mc x ∧ lo.getD 1 ≤ x.2.1 - x.1 ∧ x.2.1 - x.1 ≤ hi.getD n := by
+  unfold buildSpans
+  simp only [hlen, if_false, Bool.false_eq_true]
+  rw [mem_buildEnzymatic]
+  simp only [Option.getD_some, IsEnz, plus_sortDedup]
+
+example : ((sortDedup [5, 10, 5]).length : Int) ≠ 14 + 1 := by decide
+
+/-- C06, semi-specific digestion, shortcut not taken: exactly the spans that share one end with an
+enzymatic span containing them (the enzymatic spans included), with the number of cleavage points
+strictly inside as value, filtered by the length bounds. -/
+theorem mem_buildSpans_semi (n : Int) (sites : List Int) (mc : Nat) (lo hi : Option Int)
+    (hn : 0 ≤ n) (hb : ∀ s ∈ sites, 0 ≤ s ∧ s ≤ n) (hlo : 1 ≤ lo.getD 1)
+    (hlen : ((sortDedup sites).length : Int) ≠ n + 1) (x : Span) :
+    x ∈ buildSpans n sites mc lo hi true ↔
+      IsSemi n sites mc x ∧ lo.getD 1 ≤ x.2.1 - x.1 ∧ x.2.1 - x.1 ≤ hi.getD n := by
+  have hL : SSorted (plus n sites) := ssorted_sortDedup _
+  have hLb : ∀ y ∈ plus n sites, 0 ≤ y ∧ y ≤ n := by
+    intro y hy
+    rcases (mem_plus n sites y).mp hy with rfl | rfl | hy
+    · omega
+    · omega
+    · exact hb y hy
+  have hhi : ∀ a ∈ plus n sites, ∀ b ∈ plus n sites, b - a ≤ n := by
+    intro a ha b hb'; have := hLb a ha; have := hLb b hb'; omega
+  obtain ⟨s, e, v⟩ := x
+  unfold buildSpans
+  simp only [hlen, if_false, if_true]
+  have hE : buildEnzymatic n (sortDedup sites) mc (some (lo.getD 1)) none =
+      enzGo mc (lo.getD 1) n (plus n sites) := by
+    unfold buildEnzymatic; rw [← plus_sortDedup n sites]; rfl
+  rw [hE]
+  unfold buildSemi
+  simp only [List.mem_append, List.mem_filter]
+  rw [mem_groupedLeft_enz mc _ n _ _ hL hlo hhi, mem_groupedRight_enz mc _ n _ _ hL hlo hhi,
+    mem_enzGo _ _ _ _ hL]
+  simp only [IsSemi, spanLen, Bool.and_eq_true, decide_eq_true_eq, ge_iff_le]
+  constructor
+  · rintro (⟨⟨hs, he, hse, hv, hmc, h1, h2⟩, h3, h4⟩ | ⟨h1, h2, hs, he, hv, e', he', hee', hmc⟩ |
+      ⟨h1, h2, he, hs, hv, s', hs', hss', hmc⟩)
+    · exact ⟨⟨hse, hv, Or.inl ⟨hs, e, he, by omega, hmc⟩⟩, h4, h3⟩
+    · exact ⟨⟨by omega, hv, Or.inl ⟨hs, e', he', hee', hmc⟩⟩, h1, h2⟩
+    · exact ⟨⟨by omega, hv, Or.inr ⟨he, s', hs', hss', hmc⟩⟩, h1, h2⟩
+  · rintro ⟨⟨hse, hv, h⟩, h1, h2⟩
+    by_cases hs : s ∈ plus n sites <;> by_cases he : e ∈ plus n sites
+    · left
+      have hmc : inside (plus n sites) s e ≤ mc := by
+        rcases h with ⟨_, e', he', hee', hmc⟩ | ⟨_, s', hs', hss', hmc⟩
+        · have := inside_mono (plus n sites) s s e e' (by omega) hee'; omega
+        · have := inside_mono (plus n sites) s s' e e hss' (by omega); omega
+      exact ⟨⟨hs, he, hse, hv, hmc, h1, hhi s hs e he⟩, h2, h1⟩
+    · right; left
+      rcases h with ⟨_, e', he', hee', hmc⟩ | ⟨he', _⟩
+      · exact ⟨h1, h2, hs, he, hv, e', he', hee', hmc⟩
+      · exact absurd he' he
+    · right; right
+      rcases h with ⟨hs', _⟩ | ⟨_, s', hs', hss', hmc⟩
+      · exact absurd hs' hs
+      · exact ⟨h1, h2, he, hs, hv, s', hs', hss', hmc⟩
+    · rcases h with ⟨hs', _⟩ | ⟨he', _⟩
+      · exact absurd hs' hs
+      · exact absurd he' he
+
+/-- non-vacuity (n = 14, S = [5,10], mc = 2, semi): a left semi span inside `(0,10)`, a right semi span,
+and the hypotheses of `mem_buildSpans_semi` -/
+example : IsSemi 14 [5, 10] 2 (0, 7, 1) ∧ IsSemi 14 [5, 10] 2 (3, 14, 2) ∧
+    (∀ s ∈ [5, 10], (0:Int) ≤ s ∧ s ≤ 14) ∧ ((sortDedup [5, 10]).length : Int) ≠ 14 + 1 ∧
+    (0, 7, 1) ∈ buildSpans 14 [5, 10] 2 none none true := by decide
+
+/-- C06, obligation 1: `build_spans` returns exactly the specified set — non-specific, enzymatic and
+semi-specific case together. -/
+theorem mem_buildSpans (n : Int) (sites : List Int) (mc : Nat) (lo hi : Option Int) (semi : Bool)
+    (hn : 0 ≤ n) (hb : ∀ s ∈ sites, 0 ≤ s ∧ s ≤ n) (hlo : 1 ≤ lo.getD 1) (x : Span) :
+    x ∈ buildSpans n sites mc lo hi semi ↔ IsSpan n sites mc (lo.getD 1) (hi.getD n) semi x := by
+  by_cases hns : NonSpecific n sites
+  · exact mem_buildSpans_nonspecific n sites mc lo hi semi hn hb hlo hns x
+  · have hlen : ((sortDedup sites).length : Int) ≠ n + 1 :=
+      fun h => hns ((shortcut_iff_nonSpecific n sites hn hb).mp h)
+    cases semi
+    · rw [mem_buildSpans_enzymatic n sites mc lo hi hlen]
+      simp only [IsSpan, hns, if_false, Bool.false_eq_true]
+      constructor
+      · intro h; exact ⟨h.2.1, h.2.2, h.1⟩
+      · intro h; exact ⟨h.2.2, h.1, h.2.1⟩
+    · rw [mem_buildSpans_semi n sites mc lo hi hn hb hlo hlen]
+      simp only [IsSpan, hns, if_false, if_true]
+      constructor
+      · intro h; exact ⟨h.2.1, h.2.2, h.1⟩
+      · intro h; exact ⟨h.2.2, h.1, h.2.1⟩
+
+example : IsSpan 14 [5, 10] 2 1 14 true (5, 12, 1) := by decide
+
+/-- C06: `build_spans` never returns a span twice -/
+theorem nodup_buildSpans (n : Int) (sites : List Int) (mc : Nat) (lo hi : Option Int) (semi : Bool)
+    (hlo : 1 ≤ lo.getD 1) : (buildSpans n sites mc lo hi semi).Nodup := by
+  have hL : SSorted (plus n sites) := ssorted_sortDedup _
+  unfold buildSpans
+  simp only
+  split
+  · exact nodup_buildNonEnzymatic' _ _ _
+  · cases semi
+    · simp only [Bool.false_eq_true, if_false]
+      exact nodup_buildEnzymatic _ _ _ _ _
+    · simp only [if_true]
+      have hE : buildEnzymatic n (sortDedup sites) mc (some (lo.getD 1)) none =
+          enzGo mc (lo.getD 1) n (plus n sites) := by
+        unfold buildEnzymatic; rw [← plus_sortDedup n sites]; rfl
+      rw [hE]
+      unfold buildSemi
+      rw [List.nodup_append]
+      refine ⟨List.Nodup.sublist List.filter_sublist (nodup_enzGo _ _ _ _ hL), ?_, ?_⟩
+      · rw [List.nodup_append]
+        refine ⟨nodup_groupedLeft_enz _ _ _ _ _ hL _, nodup_groupedRight_enz _ _ _ _ _ hL _, ?_⟩
+        rintro ⟨s, e, v⟩ hx y hy rfl
+        have h1 := groupedLeft_enz_sound mc _ n _ _ hL hlo s e v hx
+        have h2 := groupedRight_enz_sound mc _ n _ _ hL hlo s e v hy
+        exact h1.2.2.2.1 h2.2.2.1
+      · rintro ⟨s, e, v⟩ hx y hy rfl
+        have hx := (List.mem_filter.mp hx).1
+        rw [mem_enzGo _ _ _ _ hL] at hx
+        rcases List.mem_append.mp hy with hy | hy
+        · have h1 := groupedLeft_enz_sound mc _ n _ _ hL hlo s e v hy
+          exact h1.2.2.2.1 hx.2.1
+        · have h2 := groupedRight_enz_sound mc _ n _ _ hL hlo s e v hy
+          exact h2.2.2.2.1 hx.1
+
+/-- C06, obligation 3: every reported value is the number of cleavage points strictly inside the span
+(enzymatic and semi-specific digestion; under the non-specific rule the value is 0 by
+`mem_buildSpans_nonspecific`). -/
+theorem value_is_inside (n : Int) (sites : List Int) (mc : Nat) (lo hi : Option Int) (semi : Bool)
+    (hn : 0 ≤ n) (hb : ∀ s ∈ sites, 0 ≤ s ∧ s ≤ n) (hlo : 1 ≤ lo.getD 1) (hns : ¬ NonSpecific n sites)
+    (x : Span) (hx : x ∈ buildSpans n sites mc lo hi semi) :
+    x.2.2 = (inside (plus n sites) x.1 x.2.1 : Int) := by
+  rw [mem_buildSpans n sites mc lo hi semi hn hb hlo] at hx
+  simp only [IsSpan, hns, if_false] at hx
+  cases semi
+  · simp only [Bool.false_eq_true, if_false] at hx; exact hx.2.2.2.2.2.1
+  · simp only [if_true] at hx; exact hx.2.2.2.1
+
+/-! ## 4. `digest` at the level of spans -/
+
+/-- C06, obligation 4: the sorted span list of `digest` contains exactly the spans of `build_spans`,
+plus the undigested sequence `(0,n,0)` when digestion is partial. -/
+theorem mem_digestSpans (n : Int) (sites : List Int) (mc : Nat) (lo hi : Option Int) (semi complete : Bool)
+    (hn : 0 ≤ n) (hb : ∀ s ∈ sites, 0 ≤ s ∧ s ≤ n) (hlo : 1 ≤ lo.getD 1) (x : Span) :
+    x ∈ digestSpans n sites mc lo hi semi complete ↔
+      (complete = false ∧ x = (0, n, 0)) ∨ IsSpan n sites mc (lo.getD 1) (hi.getD n) semi x := by
+  unfold digestSpans
+  rw [mem_sortDedupSpans, List.mem_append, mem_buildSpans n sites mc lo hi semi hn hb hlo]
+  cases complete <;> simp
+
+/-- the output of `digest(..., sort_output=True)` is strictly increasing (as tuples), hence duplicate-free -/
+theorem sorted_digestSpans (n : Int) (sites : List Int) (mc : Nat) (lo hi : Option Int) (semi complete : Bool) :
+    (digestSpans n sites mc lo hi semi complete).Pairwise SpanLT :=
+  pairwise_sortDedupSpans _
+
+theorem nodup_digestSpans (n : Int) (sites : List Int) (mc : Nat) (lo hi : Option Int) (semi complete : Bool) :
+    (digestSpans n sites mc lo hi semi complete).Nodup :=
+  nodup_of_pairwise_spanLT (pairwise_sortDedupSpans _)
+
+example : digestSpans 5 [3] 0 none none false false = [(0, 3, 0), (0, 5, 0), (3, 5, 0)] := by decide
+
+/-! ## 5. the domain hypotheses are necessary (behaviour of the current code outside the domain) -/
+
+/-- `min_len = 0`: the code returns empty spans, one of them twice -/
+theorem lo_zero_gives_empty_spans :
+    (2, 2, 0) ∈ buildSpans 4 [2] 0 (some 0) none true ∧ ¬ (buildSpans 4 [2] 0 (some 0) none true).Nodup ∧
+      ¬ IsSpan 4 [2] 0 0 4 true (2, 2, 0) := by decide
+
+/-- a site outside `[0,n]`: the parent `(2,5)` is dropped by the default `max_len = n`, and its semi
+spans with it -/
+theorem site_outside_loses_semi_spans :
+    IsSpan 2 [5] 0 1 2 true (2, 3, 0) ∧ (2, 3, 0) ∉ buildSpans 2 [5] 0 none none true := by decide
 
 end Spans
